@@ -16,6 +16,46 @@ func treeOpts() sgen.Opts {
 	return sgen.Opts{Defs: true, Nullable: true, Enums: true, Maps: true, MaxDepth: 3, NoNestedLimits: true, NoFormatDefs: true, NoAliasDefs: true}
 }
 
+// stripConstraints removes every value constraint (bounds, lengths, patterns, item counts, formats, enums, defaults)
+// and keeps types, properties, required, items, $defs and $ref.
+func stripConstraints(v any) any {
+	switch t := v.(type) {
+	case sgen.M:
+		out := sgen.M{}
+		for k, x := range t {
+			switch k {
+			case "minimum", "maximum", "exclusiveMinimum", "exclusiveMaximum", "multipleOf", "minLength", "maxLength", "pattern", "minItems", "maxItems", "format", "enum", "default":
+				continue
+			case "properties", "$defs", "definitions":
+				m := sgen.M{}
+				if xm, ok := x.(sgen.M); ok {
+					for pk, pv := range xm {
+						m[pk] = stripConstraints(pv)
+					}
+				}
+				out[k] = m
+			default:
+				out[k] = stripConstraints(x)
+			}
+		}
+		if _, typed := out["type"]; !typed {
+			if _, isRef := out["$ref"]; !isRef {
+				if _, hasProps := out["properties"]; !hasProps {
+					out["type"] = "string" // an enum-only node lost its enum
+				}
+			}
+		}
+		return out
+	case []any:
+		o := make([]any, len(t))
+		for i, x := range t {
+			o[i] = stripConstraints(x)
+		}
+		return o
+	}
+	return v
+}
+
 func certCount(c *engine.Ctx, res []*core.PResult, key string) {
 	for _, r := range res {
 		if r.Cert != nil {
@@ -351,7 +391,8 @@ func init() {
 	// ------------------------------------------------------------------ C02
 	register("C02", func(c *engine.Ctx) {
 		c.Rule = "random structured schemas (tree fragment, plus formats) with schema-directed VALID documents (boundary values of every constraint, optional properties present or absent, null where allowed, nested objects and arrays), a third of the programs also generated with --min-sized-ints and bounds near the integer type limits; every document the reference calls valid must be accepted and every non-empty declared value must re-appear unchanged, at the same place, in json.Marshal of the decoded value. Near-duplicates: pairs of schema nodes whose Go type names collide (sibling properties, definitions, definition vs property, array items) and whose schemas differ in exactly one keyword (24 perturbations: format, type, each bound, required, enum members, items, default, nullable, annotation only, identical), both orders, documents valid for the one and for the other at both positions. The broad random stream (all features, mutated documents) additionally ties model and implementation. Distinct = distinct (stream, verdicts, document shape)."
-		c.Proofs([]string{"GJS.Props.C02", "GJS.Proofs.Mono", "GJS.Proofs.Stable"}, []string{
+		c.Proofs([]string{"GJS.Props.C02", "GJS.Props.Whole", "GJS.Proofs.Mono", "GJS.Proofs.Stable"}, []string{
+			"GJS.Props.C02.certShape_accepts", "GJS.Props.C02.certified_exact_on_shape", "GJS.Props.C02.acc_map_iff",
 			"GJS.Proofs.decode_err_mono", "GJS.Proofs.decode_stable",
 			"GJS.Props.C02.prim_roundtrip", "GJS.Props.C02.validators_only_reject_on_constraints", "GJS.Props.C02.unmarshal_accept_stable",
 			"GJS.Props.C02.rejected_forever_not_accepted", "GJS.Proofs.decode_ok_mono", "GJS.Proofs.okMono",
@@ -417,6 +458,17 @@ func init() {
 				docs = append(docs, M{"r": v}, M{"r": v, "o": v}, M{"r": v, "a": []any{v, fmtVals[f][0]}}, M{"r": v, "m": M{"k": v}})
 			}
 			pcs = append(pcs, baseCase("c02-valid", schema, docs, "format-values", f))
+		}
+		// programs WITHOUT value constraints (types, properties, required, items only): the fragment of the whole-document
+		// completeness theorem `certShape_accepts` — the evidence counts how many of them the driver certifies (`shape`)
+		for i := 0; i < c.N(80, 800); i++ {
+			g := sgen.New(c.R, sgen.Opts{Defs: i%2 == 0, MaxDepth: 3, NoFormatDefs: true, NoAliasDefs: true})
+			root := stripConstraints(g.Root("")).(sgen.M)
+			docs := []any{g.FullSample(root, 0)}
+			for k := 0; k < 8; k++ {
+				docs = append(docs, g.Sample(root, 0))
+			}
+			pcs = append(pcs, baseCase("c02-valid", root, docs, "constraint-free"))
 		}
 		// a member with a valid default AND a constraint its Go zero value violates: the documents that omit it (or give
 		// null) are valid and must be accepted — at the top, nested, and in array items
@@ -542,6 +594,7 @@ func init() {
 				c.Sample(M{"schema": clip(string(r.SchemaJSON), 400), "doc": r.DocJSON[1]})
 			}
 		}
+		certCount(c, res, "shape")
 		breaks(c, res, nil, fails > 0)
 		knownProgramFindings(c)
 	})
